@@ -1181,17 +1181,17 @@ func (d *Data) blockSize() dvid.Point3d {
 	if d.cachedBlockSize != nil {
 		return *d.cachedBlockSize
 	}
+	// Publish the cached size only once it is filled in, or a concurrent first request
+	// sees a zero block size (and divides by it).
 	var bsize dvid.Point3d
-	d.cachedBlockSize = &bsize
 	if lb := d.getSyncedLabels(); lb != nil {
 		bsize = lb.BlockSize().(dvid.Point3d)
-		return bsize
-	}
-	if lv := d.GetSyncedLabelvol(); lv != nil {
+	} else if lv := d.GetSyncedLabelvol(); lv != nil {
 		bsize = lv.BlockSize
-		return bsize
+	} else {
+		bsize = dvid.Point3d{DefaultBlockSize, DefaultBlockSize, DefaultBlockSize}
 	}
-	bsize = dvid.Point3d{DefaultBlockSize, DefaultBlockSize, DefaultBlockSize}
+	d.cachedBlockSize = &bsize
 	return bsize
 }
 
